@@ -70,6 +70,12 @@ def run_variant(v):
     try:
         for e in v.get("edits", []):
             apply_edit(scratch, e["file"], e["old"], e["new"], e.get("count", 1))
+        if v.get("patch"):
+            # a unified diff stored next to the variant tables (sa/mutants/patches/)
+            r = subprocess.run(["patch", "-p1", "-s", "-d", scratch, "-i",
+                                os.path.join(HERE, "mutants", "patches", v["patch"])], capture_output=True, text=True)
+            if r.returncode != 0:
+                raise RuntimeError("variant patch %s does not apply: %s" % (v["patch"], r.stdout + r.stderr))
         if v.get("revert"):
             # undo a `fix:` commit of /repo (found by its subject) in the scratch copy
             h = subprocess.check_output(["git", "-C", REPO, "log", "--format=%H", "--grep", v["revert"], "-F", "-1"],
